@@ -11,29 +11,64 @@ KIND_PROP = {
     'eq_lost': 'C13', 'slots_grew': 'C13', 'progress_direction': 'C13',
     'data_wrong': 'C14', 'data_merge': 'C14',
     'count_mismatch': 'C10',
+    'rw_missing_eq': 'C04', 'probe_missing': 'C04', 'rw_unsound_eq': 'C05', 'unbound_var': 'C05', 'match_not_represented': 'C05', 'match_mutated': 'C05',
+    'false_but_changed': 'C15', 'false_but_new': 'C15',
 }
 
 _closure_cache = {}
+_state_cache = {}
+def oracle_state(tmpl, pattern, nsteps):
+    """(terms, equations, rewrite log) after the first nsteps operations under the coincidence pattern; rewrite ops are applied on the
+    oracle side: all rules are matched against the closure of the pre-state, then every instance equation is added"""
+    key = (tmpl.key(), tuple(pattern), nsteps)
+    st = _state_cache.get(key)
+    if st is not None: return st
+    if nsteps == 0: st = ([], [], [])
+    else:
+        terms, eqs, log = oracle_state(tmpl, pattern, nsteps - 1)
+        terms, eqs, log = list(terms), list(eqs), list(log)
+        op = tmpl.ops[nsteps - 1]
+        def addt(t):
+            for s in O.subterms(t):
+                if s not in terms: terms.append(s)
+        if op[0] in ('add', 'readd'): addt(O.apply_pattern(tuple_term(op[1]), pattern))
+        elif op[0] == 'union': eqs.append((O.apply_pattern(tuple_term(op[1]), pattern), O.apply_pattern(tuple_term(op[2]), pattern)))
+        elif op[0] == 'rewrite':
+            C = O.Closure(terms, eqs, n_names(terms, eqs, pattern), spare=tmpl_spare(tmpl))
+            new = []
+            for r in op[1]:
+                lhs, rhs = O.apply_pattern(tuple_term(r[2]), pattern), O.apply_pattern(tuple_term(r[3]), pattern)
+                new.extend(O.rule_instances(C, terms, lhs, rhs))
+            already = all(O.canon(b) in C.parent and C.equal(a, b) for a, b in new)
+            log.append({'step': nsteps, 'instances': len(new), 'nothing_new': already})
+            for a, b in new:
+                addt(b); eqs.append((a, b))
+        st = (terms, eqs, log)
+    _state_cache[key] = st
+    return st
+
 def closure_for(tmpl, pattern, nsteps):
     """closure of the equations asserted by the first nsteps operations, under the coincidence pattern"""
     key = (tmpl.key(), tuple(pattern), nsteps)
     c = _closure_cache.get(key)
     if c is None:
-        terms = []; eqs = []
-        def addt(t):
-            for s in O.subterms(t):
-                if s not in terms: terms.append(s)
-        for op in tmpl.ops[:nsteps]:
-            if op[0] in ('add', 'readd', 'lookup'): addt(O.apply_pattern(tuple_term(op[1]), pattern))
-            elif op[0] == 'union': eqs.append((O.apply_pattern(tuple_term(op[1]), pattern), O.apply_pattern(tuple_term(op[2]), pattern)))
-        c = O.Closure(terms, eqs, max(pattern) + 1 if pattern else 0, spare=tmpl_spare(tmpl))
+        terms, eqs, _ = oracle_state(tmpl, pattern, nsteps)
+        c = O.Closure(terms, eqs, n_names(terms, eqs, pattern), spare=tmpl_spare(tmpl))
         _closure_cache[key] = c
     return c
+
+def n_names(terms, eqs, pattern):
+    m = max(pattern) if pattern else -1
+    for t in list(terms) + [x for e in eqs for x in e]:
+        for n in O.all_names(t):
+            if isinstance(n, int) and n > m: m = n
+    return m + 1
 
 def tmpl_spare(tmpl):
     return 3
 
 def tuple_term(t):
+    if isinstance(t, str): return t
     return tuple(tuple_term(x) if isinstance(x, (list, tuple)) else x for x in t)
 
 def handle_terms(tmpl, nsteps):
@@ -44,7 +79,7 @@ def handle_terms(tmpl, nsteps):
             if kind == 'c': rec(a)
         if t not in out: out.append(t)
     for op in tmpl.ops[:nsteps]:
-        if op[0] == 'add': rec(tuple_term(op[1]))
+        if op[0] in ('add', 'probe'): rec(tuple_term(op[1])) if op[0] == 'add' else (out.append(tuple_term(op[1])) if tuple_term(op[1]) not in out else None)
     return out
 
 def judge_record(tmpl, rec):
@@ -53,20 +88,27 @@ def judge_record(tmpl, rec):
     pat = rec['pattern']
     steps = rec['steps']
     prev = None
+    rw_from = next((i + 1 for i, op in enumerate(tmpl.ops) if op[0] == 'rewrite'), None)
     for k, st in enumerate(steps):          # step 0 = after EGraph::new, step k = after ops[k-1]
         C = closure_for(tmpl, pat, k)
+        after_rw = rw_from is not None and k >= rw_from
         hts = [O.apply_pattern(t, pat) for t in handle_terms(tmpl, k)]
         if len(hts) != len(st['canon']):
             out.append(('panic', k, 'record has %d handles, template has %d' % (len(st['canon']), len(hts)))); break
         n = len(hts)
+        known = [st['canon'][i] is not None and O.canon(hts[i]) in C.parent for i in range(n)]
+        for i in range(n):
+            if st['canon'][i] is None and O.canon(hts[i]) in C.parent: out.append(('probe_missing', k, [i, list(map(str, hts[i]))]))
         # equalities
         for i in range(n):
             for j in range(n):
+                if not (known[i] and known[j]): continue
                 want = C.equal(hts[i], hts[j]); got = st['eq'][i][j]
-                if got and not want: out.append(('unsound_eq', k, [i, j]))
-                if want and not got: out.append(('missing_eq', k, [i, j]))
+                if got and not want: out.append(('rw_unsound_eq' if after_rw else 'unsound_eq', k, [i, j]))
+                if want and not got: out.append(('rw_missing_eq' if after_rw else 'missing_eq', k, [i, j]))
         # slots
         for i in range(n):
+            if not known[i]: continue
             nr = sorted(str(_first_name_of_block(pat, b)) for b in C.nonredundant(hts[i]))
             c = st['canon'][i]
             if any(v.startswith('x') for v in c['vals']): out.append(('foreign_slot', k, [i, c['vals']]))
@@ -86,9 +128,28 @@ def judge_record(tmpl, rec):
         # class structure
         for i in range(n):
             for j in range(i + 1, n):
+                if not (known[i] and known[j]): continue
                 same = st['canon'][i]['id'] == st['canon'][j]['id']; want = C.same_class(hts[i], hts[j])
-                if same and not want: out.append(('class_merged', k, [i, j]))
-                if want and not same: out.append(('class_split', k, [i, j]))
+                if same and not want: out.append(('rw_unsound_eq' if after_rw else 'class_merged', k, [i, j]))
+                if want and not same: out.append(('rw_missing_eq' if after_rw else 'class_split', k, [i, j]))
+        # matching
+        em = st.get('ematch')
+        if em:
+            want_vars = sorted(v[1:] for v in O.pat_vars(tuple_term(tmpl.ops[k - 1][1])))
+            if not em['unchanged']: out.append(('match_mutated', k, None))
+            for mt in em['matches']:
+                if sorted(mt['bound']) != want_vars: out.append(('unbound_var', k, [mt['bound'], want_vars]))
+                if not mt['found']: out.append(('match_not_represented', k, mt['binds']))
+        # saturation flag
+        if st.get('rewrite_ret') is False and prev is not None:
+            pn = len(prev['canon'])
+            same = (st['live'] == prev['live'] and st['nodes'] == prev['nodes'] and st['progress'] == prev['progress'] and
+                    all(st['eq'][i][j] == prev['eq'][i][j] for i in range(pn) for j in range(pn)) and
+                    all((st['canon'][i] or {}).get('nslots') == (prev['canon'][i] or {}).get('nslots') for i in range(pn)) and
+                    all(st['classes'].get(c, {}).get('gcount') == v.get('gcount') for c, v in prev['classes'].items()))
+            if not same: out.append(('false_but_changed', k, [prev['progress'], st['progress']]))
+            log = [e for e in oracle_state(tmpl, pat, k)[2] if e['step'] == k]
+            if log and not log[0]['nothing_new']: out.append(('false_but_new', k, log[0]))
         # consistency
         chk = st.get('check')
         if chk:
@@ -104,6 +165,7 @@ def judge_record(tmpl, rec):
         # analysis data
         if 'data' in next(iter(st['classes'].values()), {}):
             for i in range(n):
+                if not known[i]: continue
                 d = st['classes'].get(str(st['canon'][i]['id']), {}).get('data')
                 if tmpl.analysis == 'MinSize':
                     want = C.min_size(hts[i])
@@ -114,7 +176,7 @@ def judge_record(tmpl, rec):
             for i in range(pn):
                 for j in range(pn):
                     if prev['eq'][i][j] and not st['eq'][i][j]: out.append(('eq_lost', k, [i, j]))
-                if st['canon'][i]['nslots'] > prev['canon'][i]['nslots']: out.append(('slots_grew', k, i))
+                if st['canon'][i] is not None and prev['canon'][i] is not None and st['canon'][i]['nslots'] > prev['canon'][i]['nslots']: out.append(('slots_grew', k, i))
             a, b = prev['progress'], st['progress']
             if not progress_ok(a, b): out.append(('progress_direction', k, [a, b]))
         prev = st
@@ -141,11 +203,12 @@ def observable_view(rec):
     """the part of a record that must not depend on how names sort (C11) - ids left out, class relation kept"""
     out = []
     for st in rec['steps']:
-        ids = [c['id'] for c in st['canon']]
+        ids = [(c or {}).get('id') for c in st['canon']]
         rel = [[ids[i] == ids[j] for j in range(len(ids))] for i in range(len(ids))]
-        out.append({'eq': st['eq'], 'nslots': [c['nslots'] for c in st['canon']], 'vals': [c['vals'] for c in st['canon']],
-                    'gcount': [st['classes'].get(str(c['id']), {}).get('gcount') for c in st['canon']],
-                    'data': [st['classes'].get(str(c['id']), {}).get('data') for c in st['canon']],
+        out.append({'eq': st['eq'], 'nslots': [(c or {}).get('nslots') for c in st['canon']], 'vals': [(c or {}).get('vals') for c in st['canon']],
+                    'gcount': [st['classes'].get(str((c or {}).get('id')), {}).get('gcount') for c in st['canon']],
+                    'data': [st['classes'].get(str((c or {}).get('id')), {}).get('data') for c in st['canon']],
+                    'ematch': st.get('ematch'), 'probe': st.get('probe'), 'rewrite_ret': st.get('rewrite_ret'),
                     'live': len(st['live']), 'nodes': st['nodes'], 'progress': st['progress'], 'same_class': rel,
                     'union_ret': st.get('union_ret'), 'check': (st.get('check') or {}).get('check')})
     return {'steps': out, 'panic': bool(rec.get('panic'))}
